@@ -64,6 +64,9 @@ def encParams (p : Params) : String := s!"{p.1} {p.2.1} {encBool p.2.2}"
 def handle (cmd : String) (args : List Int) : Option String :=
   match cmd with
   | "C05.orders" => pure s!"{encNats Gen.Quad.TRI_ORDERS} {encNats Gen.Quad.GAUSS_ORDERS}"
+  | "C05.supported" => do
+      let (r, o) ← run (do let r ← nat; let o ← nat; pure (r, o)) args
+      pure (encBool (supported r o))
   | "C05.table" => do
       let (r, o) ← run (do let r ← nat; let o ← nat; pure (r, o)) args
       match quadOf r o with
